@@ -408,6 +408,13 @@ def rand_msg(rng, long_):
         df = rng.choice((0, 4, 5, 11))
         n = 56
     x = bits.with_pi((df << (n - 29)) | rng.fill(n - 29), n, rng.fill(24))
+    if rng.random() < 0.15:
+        # "payload bytes free": a frame whose TAIL (payload and parity field, from some byte on) is all 00 or all FF - an empty
+        # Comm-B reply addressed to the aircraft whose address equals the parity, a padded record; the first byte keeps the format
+        kbits = 8 * rng.randrange(1, n // 8)
+        x = (x >> kbits) << kbits
+        if rng.random() < 0.4:
+            x |= (1 << kbits) - 1
     return x, n
 
 
